@@ -25,6 +25,7 @@ type GenOpts struct {
 	AllowLeftRec bool // C08: place @@ anywhere, do not filter left-recursive grammars
 	OddLits      bool // C14: literals needing escapes (quotes, backslash, non-ASCII, blanks)
 	MoreUnions   bool // always declare unions when there are enough productions, and prefer them as @@ targets
+	WholeBody    bool // some productions consist of exactly one modified group: ( a b )+ , { a | b } "x"
 	EOFRefs      bool // alternatives may end in an explicit EOF reference: ( ";" | EOF )
 	CatchAll     int  // out of 10: the root becomes ( body )? followed by a capture-everything tail, so that skipping the body still parses
 }
@@ -139,6 +140,17 @@ func generateOnce(r *mon.RNG, id string, o *GenOpts) *Grammar {
 		}
 		if e.Op == "alt" && false {
 			_ = e
+		}
+		if o.WholeBody && (e.Op == "seq" || e.Op == "alt") && r.Chance(1, 4) {
+			// the whole body of the production is one modified group
+			if pc.nullable(e) {
+				e = pc.ensureConsuming(e)
+			}
+			e = &Expr{Op: "grp", Mode: "+", Kids: []*Expr{e}}
+			if s.declNull[i] && r.Bool() {
+				e.Mode = r.Pick("*", "?")
+				e.Brack = r.Bool()
+			}
 		}
 		if i == 0 && r.Intn(10) < o.CatchAll {
 			// ( body )? @( any token )* : an abandoned body leaves an alternative successful reading
